@@ -399,6 +399,17 @@ def _roundtrip(data):
 
 
 
+def sim_states(path):
+    """states of a `tlc -simulate` trace file (TLC interleaves `\\* <Action ...>` comment lines, which the shared
+    value parser does not skip: they are removed here before parsing)"""
+    with open(path) as f:
+        text = "".join(l for l in f if not l.lstrip().startswith(("\\*", "====", "----")))
+    clean = path + ".clean"
+    with open(clean, "w") as f:
+        f.write(text)
+    return list(tlaval.iter_dump(clean))
+
+
 class _CachedRes(object):
     """stand-in for a TLCResult restored from VERIF_CASE_CACHE (mutation runs re-use the repo-independent TLC output)"""
 
@@ -548,7 +559,10 @@ def mutate(data, rnd):
 def m_case(arg):
     tid, kind, base_seed, mseed, hist = arg
     rnd = random.Random(mseed)
-    base = build_bytes(hist, base_seed) if kind == "hist" else library_stream(base_seed)
+    try:
+        base = build_bytes(hist, base_seed) if kind == "hist" else library_stream(base_seed)
+    except Exception as e:  # noqa: the library could not produce the seed stream (producer fault: not C06's subject)
+        return {"tid": tid, "src": kind, "ev": "rt", "n": 0, "parsed": False, "outcome": "no-seed", "exc": common.exc_signature(e), "ser_ok": False, "ser_exc": "", "same_bytes": False, "same_desc": False, "redes_ok": False, "diff_bit": -1, "seqs": []}
     data = mutate(base, rnd) if mseed % 7 else base
     ev = roundtrip(data)
     ev["tid"] = tid
@@ -566,12 +580,17 @@ def case_of(ev, job):
     return {"kind": "mut", "job": [job[1], job[2], job[3], job[4]]}
 
 
-def selftest(hists):
+def selftest(hists, convicted=False):
     """binding demonstration: a writer that disagrees with the reader about unused bounded-block bits, and a
     corrupted recorded field, must be flagged by TLC's verdict."""
     from vc2_conformance.bitstream import io as bio
 
-    h = next(x for x in hists if x[-1]["u"]["k"] == "END" and x[-1]["out"] == "complete" and any(s["u"]["k"] == "PIC" and s["u"].get("sl") == "long" for s in x) and not any(s["dev"] for s in x))
+    h = [
+        {"u": {"k": "SH", "ver": 3, "idx": "known", "bvf": "custom", "align": "ones"}, "dev": False},
+        {"u": {"k": "PIC", "prof": "hq", "sl": "long", "align": "ones"}, "dev": False},
+        {"u": {"k": "PIC", "prof": "ld", "sl": "ones", "align": "zero"}, "dev": False},
+        PLAIN_EOS,
+    ]
     data = build_bytes(h, 1)
     good = roundtrip(data)
     good["tid"] = 1
@@ -591,6 +610,8 @@ def selftest(hists):
     bad, _ = trace.validate("DeserTrace", [_slim(good), _slim(bad_ev), _slim(corrupt)])
     by = {b["tid"]: b for b in bad if b["alarm"]}
     if 1 in by:
+        if convicted:
+            return {"skipped": "reference round trip of the self-test is itself flagged (%s); violations were already recorded" % by[1]["clause"]}
         raise RuntimeError("binding self-test: reference round trip flagged %r" % (by[1],))
     if 2 not in by or by[2]["clause"] != "SameBytes":
         raise RuntimeError("binding self-test failed: writer that zeroes padding bits not flagged: %r %r" % (bad, bad_ev))
@@ -612,13 +633,14 @@ def run(ctx):
             sim = tlc.run("Deser", open(os.path.join(tlc.SPEC, "mc/Deser.cfg")).read().replace("MaxLen = 5", "MaxLen = 14"), simulate=3000, depth=16, seed=ctx.seed, workers=1, timeout=1200)
             out = []
             for p in sorted(glob.glob(os.path.join(sim.sim_dir, "tr*"))):
-                sts = list(tlaval.iter_dump(p))
+                sts = sim_states(p)
                 if sts and sts[-1]["hist"]:
                     out.append(tlaval.to_jsonable(sts[-1]["hist"]))
             return sim, out
 
         hists = hists + cached_tlc(ctx, "c06_simulate", "random walks", {"MaxLen": 14, "simulate": 3000, "depth": 16}, produce_sim)
-    reps = ctx.pick(3, 12)
+    sub = int(os.environ.get("VERIF_SUBSAMPLE") or 1)  # mutation-sanity runs only: a subset of the full run
+    reps = ctx.pick(3, 12) if sub == 1 else 1
     jobs = []
     for h in hists:
         for r in range(reps):
@@ -627,7 +649,7 @@ def run(ctx):
                     continue
                 jobs.append((len(jobs) + 1, h, ctx.seed * 1009 + r, close))
     gev = common.pmap(g_case, jobs)
-    nm = ctx.pick(20000, 400000)
+    nm = ctx.pick(20000, 400000) // sub
     complete = [h for h in hists if h[-1]["u"]["k"] == "END" and h[-1]["out"] == "complete"]
     rnd = random.Random(ctx.seed)
     mjobs = []
@@ -664,7 +686,12 @@ def run(ctx):
     parsed = sum(1 for e in events if e["parsed"])
     if parsed < len(events) // 20 or sum(1 for e in gev if e["parsed"]) < 50:
         raise RuntimeError("vacuous: only %d of %d streams parsed to completion" % (parsed, len(events)))
-    st = selftest(hists)
+    try:
+        st = selftest(hists, bool(ctx.violations))
+    except RuntimeError as e:
+        if not ctx.violations:
+            raise
+        st = {"skipped": "self-test not conclusive on code that is already convicted by this run: %s" % e}
     kinds = set()
     for e in events:
         if e["parsed"]:
@@ -683,7 +710,7 @@ def run(ctx):
             "tlc_history_streams": len(gev),
             "mutants": len(mev),
             "parsed_to_completion": parsed,
-            "outcomes": {o: sum(1 for e in events if e["outcome"] == o) for o in ("complete", "eof", "raises", "timeout")},
+            "outcomes": {o: sum(1 for e in events if e["outcome"] == o) for o in ("complete", "eof", "raises", "timeout", "no-seed")},
             "spec_disagreements": {"predicted_outcome_differs": pred_dis, "logged_clauses": logged},
             "binding_selftest": st,
             "samples": samples,
